@@ -47,6 +47,10 @@ type hEntry struct {
 	ID    uint64
 	Epoch uint64
 	Pad   []byte
+	// refuse: the encoder gives up after having emitted part of the record (like a field over its CBOR limit,
+	// which cbor-gen notices only after the preceding fields). Such an Append is refused, not acknowledged,
+	// and must leave nothing behind.
+	refuse bool
 }
 
 func (e *hEntry) WALEpoch() uint64 { return e.Epoch }
@@ -64,6 +68,12 @@ func (e *hEntry) MarshalCBOR(w io.Writer) error {
 	}
 	if err := cw.WriteMajorTypeHeader(cbg.MajByteString, uint64(len(e.Pad))); err != nil {
 		return err
+	}
+	if e.refuse {
+		if _, err := cw.Write(e.Pad[:len(e.Pad)/2]); err != nil {
+			return err
+		}
+		return errors.New("hEntry: refused in the middle of the record")
 	}
 	_, err := cw.Write(e.Pad)
 	return err
@@ -142,10 +152,11 @@ type hist struct {
 	epoch uint64
 	ids   *uint64 // shared id counter
 	// knownEpochs: epochs used so far (purge targets)
-	epochs []uint64
-	budget *int64 // remaining fork IO budget in bytes
-	root   string
-	forks  *int
+	epochs  []uint64
+	regress bool
+	budget  *int64 // remaining fork IO budget in bytes
+	root    string
+	forks   *int
 }
 
 func fmtClosed(w *W) string {
@@ -242,6 +253,19 @@ func (h *hist) nextEpoch() uint64 {
 	}
 	h.epochs = append(h.epochs, h.epoch)
 	return h.epoch
+}
+
+// maybeRegress: in a third of the histories the epochs written after a file has been closed fall well below
+// those of the closed file (the log does not require monotone epochs), so that a later file holds only lower
+// epochs than an earlier one — the case in which a per-file maximum carried over from file to file shows.
+func (h *hist) maybeRegress() {
+	if h.regress && h.rng.Chance(1, 2) {
+		back := uint64(3 + h.rng.Intn(8))
+		if back > h.epoch {
+			back = h.epoch
+		}
+		h.epoch -= back
+	}
 }
 
 func (h *hist) mkEntry(padLen int) hEntry {
@@ -465,6 +489,10 @@ func runHistory(out *vh.Out, rng *vh.Rng, root string, idx int, p profile, ids *
 	out.Line("hist %d %s", idx, p.name)
 	h := &hist{out: out, rng: rng, dir: dir, ids: ids, budget: budget, root: root, forks: forks}
 	h.epoch = uint64(rng.Intn(4))
+	h.regress = rng.Chance(1, 3)
+	if h.regress {
+		h.epoch += uint64(rng.Intn(20))
+	}
 	h.open()
 	for i := 0; i < p.ops && h.wal != nil; i++ {
 		last := p.final && i == p.ops-1
@@ -485,6 +513,30 @@ func runHistory(out *vh.Out, rng *vh.Rng, root string, idx int, p profile, ids *
 				}
 			}
 			e := h.mkEntry(padLen)
+			if !last && rng.Chance(1, 14) {
+				// a refused Append: the encoder fails part-way; nothing may reach the log (what the rotation
+				// check at the start of Append did stays done)
+				e.refuse = true
+				if len(e.Pad) < 2 {
+					e.Pad = padFor(e.ID, 8)
+				}
+				err := h.wal.Append(e)
+				_, _, act, _, has := h.wal.VerifStats()
+				var sz int64
+				if has {
+					if st, _ := os.Stat(filepath.Join(h.dir, act)); st != nil {
+						sz = st.Size()
+					}
+				} else {
+					act = "-"
+				}
+				res := "err"
+				if err == nil {
+					res = "ok"
+				}
+				out.Line("refuse %d %d => %s active=%s asize=%d", e.ID, e.Epoch, res, act, sz)
+				continue
+			}
 			line, ok, active, asize, l := h.doAppend(e)
 			if ok && active != "" && (last || (p.tornP > 0 && rng.Chance(1, p.tornP))) && *budget > 0 {
 				maxN := p.tornMax
@@ -509,8 +561,10 @@ func runHistory(out *vh.Out, rng *vh.Rng, root string, idx int, p profile, ids *
 			out.Line("%s", line)
 		case r < 66:
 			out.Line("rotate => %s", errStr(h.wal.Rotate()))
+			h.maybeRegress()
 		case r < 70:
 			out.Line("close => %s", errStr(h.wal.Close()))
+			h.maybeRegress()
 		case r < 81:
 			h.purge(h.pickPurge())
 		case r < 89:
